@@ -6,24 +6,42 @@ TJson == MT("a", "x", <<>>)          \* application/json
 TAXml == MT("a", "m", <<>>)          \* application/xml
 TTXml == MT("b", "m", <<>>)          \* text/xml
 TYaml == MT("a", "y", <<>>)          \* a type the app registers itself
-MCKeys == {TJson, TAXml, TYaml}
+CS     == Pm("charset", "utf-8")
+TAXmlC == MT("a", "m", <<CS>>)       \* application/xml; charset=utf-8: serves application/xml without being literally equal
+TJsonC == MT("a", "x", <<CS>>)       \* application/json; charset=utf-8
+TAStar == MT("a", "*", <<>>)         \* application/*
+TStar  == MT("*", "*", <<>>)         \* */*
+TVJson == MT("a", "w", <<>>)         \* application/vnd.v1+json (never registered: reaches the +json fallback)
+TVXml  == MT("c", "v", <<>>)         \* image/vnd.v1+xml
+MCSufJson == {"w"}
+MCSufXml  == {"v"}
+(* exhaustive instance: the literal keys next to keys that only MATCH the predefined types *)
+MCKeys == {TJson, TAXml, TAXmlC, TAStar}
+SimKeys == {TJson, TAXml, TAXmlC, TJsonC, TAStar, TStar, TYaml, TTXml}
 R(t, q) == MR(t.t, t.s, t.pm, q)
 MCAccepts == { <<R(TYaml, QABSENT), R(TJson, 100000)>>,      \* prefers the registered type, JSON at q=0.1
                <<R(TAXml, QABSENT), R(TJson, 500000)>>,      \* prefers XML
                <<R(TYaml, QABSENT)>>,                        \* only the registered type
                <<R(TTXml, 900000), R(TYaml, 800000)>>,
                <<MR("*", "*", <<>>, QABSENT)>>,
-               <<R(TJson, QABSENT)>> }
+               <<R(TJson, QABSENT)>>,
+               <<R(TAXml, QABSENT)>>,                        \* only application/xml
+               <<R(TVJson, QABSENT)>>,                       \* +json fallback
+               <<R(TVXml, QABSENT), R(TYaml, 0)>> }          \* +xml fallback
+SimAccepts == MCAccepts \cup { <<R(TTXml, QABSENT)>>, <<R(TAXml, QABSENT), R(TJson, 0)>>, <<R(TVXml, 500000)>>,
+                               <<MRP("a", "m", <<CS>>, 500000, 0), R(TJson, 100000)>>,
+                               <<R(TVJson, QABSENT), R(TVXml, QABSENT)>> }
 Bound == TLCGet("level") <= Depth
 View == <<objs, offmemo, IF last.op = "error" THEN elast ELSE [o |-> 0, hdr |-> <<>>, xml |-> FALSE, ct |-> NOKEY, enc |-> NOBODY], last.op = "error">>
 Keep == UNCHANGED h
-LogE == h' = Append(h, [call |-> last', err |-> elast', map |-> objs'[1].map])
+LogE == h' = Append(h, [call |-> last', err |-> elast', map |-> objs'[1].map,
+                        adm |-> AdmittedEnc(objs'[1].map, elast'.ct, elast'.xml)])
 MMutate == (\E o \in DOMAIN objs : EMutate(o)) /\ Keep
 MError  == (\E o \in DOMAIN objs : \E hdr \in Accepts, xml \in BOOLEAN : RenderError(o, hdr, xml)) /\ Keep
 MNext   == MMutate \/ MError
 MCInit  == EInit /\ h = <<>>
 (* leg A: histories as JSON; errors get most of the steps (Update / UpdateFail have the largest fan-out otherwise) *)
-FInit == EInit /\ h = <<[call |-> last, err |-> elast, map |-> objs[1].map]>>
+FInit == EInit /\ h = <<[call |-> last, err |-> elast, map |-> objs[1].map, adm |-> {NOBODY}]>>
 FMutate == (\E o \in DOMAIN objs : EMutate(o)) /\ LogE
 FError  == (\E o \in DOMAIN objs : \E hdr \in Accepts, xml \in BOOLEAN : RenderError(o, hdr, xml)) /\ LogE
 FNext   == FMutate \/ FError
